@@ -238,6 +238,41 @@ def opsOf : PTree → List BOp
     (if top then [BOp.attach none (fileRefs ret)] else []) ++
     [BOp.forks id] ++ (retained.map fun r => BOp.retain r.1 r.2) ++ opsOf rest
 
+/-- **the shape of a call graph**: `Scoped before tr after` — going through
+the nodes in the order they are constructed, every node's id is new, the file
+references of a stage's resolved inputs (and of the top-level pipeline's
+inputs and return binding) and every retain point to nodes constructed
+before (a stage may retain its own outputs, a pipeline those of its
+subtree); `after` are the nodes known when the tree is done.  This is what
+the compiler's scoping rules give: a call is bound to earlier calls of its
+pipeline or to the pipeline's inputs, a return to the pipeline's own calls,
+and fully qualified ids are unique. -/
+inductive Scoped : List Node → PTree → List Node → Prop
+  | nil {b} : Scoped b .nil b
+  | stage {b a id ins ret rest} :
+      id ∉ b → (∀ r ∈ fileRefs ins, r.1 ∈ b) → (∀ r ∈ ret, r.1 ∈ id :: b) →
+      Scoped (id :: b) rest a → Scoped b (.stage id ins ret rest) a
+  | pipe {b b1 a id top ins ch ret rd rest} :
+      (top = true → ∀ r ∈ fileRefs ins, r.1 ∈ b) → Scoped b ch b1 →
+      (top = true → ∀ r ∈ fileRefs ret, r.1 ∈ b1) → id ∉ b1 → (∀ r ∈ rd, r.1 ∈ id :: b1) →
+      Scoped (id :: b1) rest a → Scoped b (.pipe id top ins ch ret rd rest) a
+
+def allIn (b : List Node) (refs : List (Node × Arg)) : Bool := refs.all fun r => b.contains r.1
+
+/-- `Scoped`, decided (the driver evaluates it for every pipestance built) -/
+def scopedB : List Node → PTree → Option (List Node)
+  | b, .nil => some b
+  | b, .stage id ins ret rest =>
+    if !b.contains id && allIn b (fileRefs ins) && allIn (id :: b) ret then scopedB (id :: b) rest else none
+  | b, .pipe id top ins ch ret rd rest =>
+    if !top || allIn b (fileRefs ins) then
+      match scopedB b ch with
+      | none => none
+      | some b1 =>
+        if (!top || allIn b1 (fileRefs ret)) && !b1.contains id && allIn (id :: b1) rd then scopedB (id :: b1) rest
+        else none
+    else none
+
 /-- `cloneFork`: the new fork gets a copy of both tables; everything else is that of a new fork -/
 def cloneFork (s : St) (disk : List DiskEnt) : St :=
   { fileArgs := s.fileArgs.map (fun p => (p.1, p.2.map id))
